@@ -253,6 +253,18 @@ func Generate(r *rand.Rand, name, dir, path string, o Opts) *Package {
 		}
 		g.w("b.go", "\treturn lc%d\n}\n", j)
 	}
+	// local types and constants inside function LITERALS that are not inside a func declaration: the initialiser of a
+	// package-level variable, a method value stored in a var, a composite literal's field (seeded change C06-n: "local"
+	// decided by "the enclosing top-level declaration is a FuncDecl")
+	g.w("b.go", "var initialised = func() int {\n\ttype localInVarFuncLit struct{ v int }\n\tconst lcVar = 41\n\t_ = localInVarFuncLit{}\n\treturn lcVar\n}()\n")
+	g.w("b.go", "var handlers = map[string]func() any{\n\t\"a\": func() any {\n\t\ttype localInMapLit struct{}\n\t\treturn localInMapLit{}\n\t},\n}\n")
+	p.LocalTyps = append(p.LocalTyps, "localInVarFuncLit", "localInMapLit")
+	p.LocalCons = append(p.LocalCons, "lcVar")
+	if o.Clash && len(names) > 0 {
+		n := names[g.r.Intn(len(names))]
+		g.w("b.go", "var _ = func() int {\n\ttype %s [3]uint16\n\tvar x %s\n\treturn len(x)\n}()\n", n, n)
+		p.LocalTyps = append(p.LocalTyps, n)
+	}
 	if o.Clash && len(names) > 0 {
 		// generic function whose type parameter shadows a package-level type
 		n := names[g.r.Intn(len(names))]
